@@ -375,7 +375,8 @@ def _build_rank(cfg, samples, weights):
         # back (binned IS native, the same array object)
         from taurex.binning import NativeBinner
         opt._binner = NativeBinner()
-    S.configure_optimizer(opt, cfg['fit'], cfg['derived'])
+    S.configure_optimizer(opt, cfg['fit'], cfg['derived'], model=model,
+                          observed=obs)
     opt.compile_params()
     return model, obs, opt
 
